@@ -43,7 +43,7 @@ def abstract_document(r, xml=False):
         if k == "qn":
             return ["qn", name()]
         if k == "lang":
-            return ["lang", r.choice(["hi", "été", ""]), r.choice(["en", "fr"])]
+            return ["lang", r.choice(["hi", "été", ""]), r.choice(["en", "fr", "EN", "en-GB", "en-gb"])]
         if k == "typed_int":
             return ["typed", str(r.choice([3, -12, 7, 2 ** 53 + 1, 9223372036854775807, 9007199254740993])), r.choice(["int", "long"]), r.random() < 0.5]
         if k == "typed_str":
@@ -82,6 +82,9 @@ def abstract_document(r, xml=False):
                     if an == ["prov", "label"] and xml:
                         v = ["str", "label"] if r.random() < 0.5 else ["lang", "lbl", "en"]
                     rec["attrs"].append([an, v])
+                    if v[0] == "lang" and v[1] and r.random() < 0.35:
+                        # the same text under the same tag in another letter case: another value, as far as the data model goes
+                        rec["attrs"].append([an, ["lang", v[1], v[2].upper() if v[2] != v[2].upper() else v[2].lower()]])
             if xml and kind in SUBTYPE_OF and r.random() < 0.3:
                 rec["subtype"] = r.choice(SUBTYPE_OF[kind])
             if xml and r.random() < 0.08:
